@@ -89,6 +89,16 @@ func (e *env) afterDeliver(v *variant, src, res, before string) {
 		}
 		out.Stat("rejections_checked_for_side_effects", 1)
 	}
+	// (0) ProcessBlock must not panic, and must never take the chain apart
+	if res == "panic" {
+		if e.node.Chain.GetStore().Height() < 0 {
+			out.Pred(Prop+"|getReorganizeNodes|whole-chain-disconnected-down-to-genesis-then-panic|no-fork-point-after-DelNode-with-descendants",
+				fmt.Sprintf("delivered=%d %s", v.wid, e.detail()))
+		} else {
+			out.Pred(Prop+"|connectBestChain|panic-nil-fork-in-side-chain-branch|after-DelNode-with-descendants",
+				fmt.Sprintf("delivered=%d %s", v.wid, e.detail()))
+		}
+	}
 	// (2) no poisoning: the first delivery of the genuine block must not be answered "exist"
 	if v.genuine {
 		if !e.genuineDel[v.hdr] {
